@@ -209,6 +209,22 @@ pub enum SOuter {
     Rec { e: SEnum, list: Vec<SEnum>, m: BTreeMap<String, SEnum> },
 }
 
+macro_rules! big_schema_enum {
+    ($name:ident; $last:ident; $($v:ident)*) => {
+        /// 130 variants: unit variants at every index, the last one carries a payload
+        #[derive(Serialize, Schema, Clone, Debug)]
+        pub enum $name { $($v,)* $last(u8) }
+        impl $name {
+            pub fn all() -> Vec<Self> { vec![$($name::$v,)* $name::$last(0), $name::$last(200)] }
+        }
+    };
+}
+big_schema_enum!(SBig; W129;
+ V0 V1 V2 V3 V4 V5 V6 V7 V8 V9 V10 V11 V12 V13 V14 V15 V16 V17 V18 V19 V20 V21 V22 V23 V24 V25 V26 V27 V28 V29 V30 V31
+ V32 V33 V34 V35 V36 V37 V38 V39 V40 V41 V42 V43 V44 V45 V46 V47 V48 V49 V50 V51 V52 V53 V54 V55 V56 V57 V58 V59 V60 V61 V62 V63
+ V64 V65 V66 V67 V68 V69 V70 V71 V72 V73 V74 V75 V76 V77 V78 V79 V80 V81 V82 V83 V84 V85 V86 V87 V88 V89 V90 V91 V92 V93 V94 V95
+ V96 V97 V98 V99 V100 V101 V102 V103 V104 V105 V106 V107 V108 V109 V110 V111 V112 V113 V114 V115 V116 V117 V118 V119 V120 V121 V122 V123 V124 V125 V126 V127 V128);
+
 fn senum_vals() -> Vec<SEnum> {
     let mut v = vec![SEnum::A, SEnum::E(), SEnum::F {}, SEnum::G(SNew(-300)), SEnum::H(vec![]), SEnum::H(vec![1, 70000u32 as u16]), SEnum::I { only: 300 }, SEnum::J { zeta: 1, alpha: false }, SEnum::J { zeta: 0, alpha: true }];
     v.extend(i16::small().into_iter().map(SEnum::B));
@@ -361,6 +377,8 @@ fn run_corpus(r: &mut Runner) {
     let n = 7u32;
     r.list::<SLife>("SLife<'a>", vec![SLife { s: "", b: &[], n: &n }, SLife { s: "é", b: &[0, 255], n: &n }]);
     r.list::<SEnum>("SEnum", senum_vals());
+    r.list::<SBig>("SBig(130 variants)", SBig::all());
+    r.list::<(SBig, u8)>("(SBig, u8)", SBig::all().into_iter().map(|e| (e, 5u8)).collect());
     let es = senum_vals();
     let mut outer = vec![];
     for e in &es {
